@@ -1,0 +1,15 @@
+//go:build verif
+
+package util
+
+// VerifYield, when set, is called at every named yield point of the connection shutdown paths.
+// It only exists in builds with the `verif` tag; it lets an external harness decide the order in
+// which the goroutines of a connection take their steps. It must be set before a driver is opened.
+var VerifYield func(point string) //nolint:gochecknoglobals
+
+// Yield marks a named scheduling point. Without the `verif` build tag it is an empty function.
+func Yield(point string) {
+	if f := VerifYield; f != nil {
+		f(point)
+	}
+}
